@@ -233,6 +233,8 @@ func init() {
 				switch pk {
 				case "replacer":
 					return []*astits.DemuxerData{{PID: ps[0].Header.PID, PES: &astits.PESData{Data: []byte{byte(len(ps))}, Header: &astits.PESHeader{}}}}, true, nil
+				case "dropper":
+					return nil, true, nil
 				case "failing":
 					return nil, false, fmt.Errorf("parser failed: %w", errParser)
 				}
